@@ -123,7 +123,7 @@ func runStalls(c *Ctx, sh *shared, dir string) {
 	dirB := filepath.Join(dir, "b")
 	portB := freePort()
 	b := NewNode(c.Bin, "c05b-stalls", dirB, fmt.Sprintf("- tcp-listener:\n    port: %d\n", portB)+workCommandYAML(dirB))
-	if err := b.Start(); err != nil {
+	if err := startNode(b); err != nil {
 		fail("node B does not start: "+err.Error(), "harness-start")
 		return
 	}
@@ -135,7 +135,7 @@ func runStalls(c *Ctx, sh *shared, dir string) {
 	}
 	defer px.Close()
 	a := NewNode(c.Bin, "c05a-stalls", filepath.Join(dir, "a"), fmt.Sprintf("- tcp-peer:\n    address: 127.0.0.1:%d\n", px.Port()))
-	if err := a.Start(); err != nil {
+	if err := startNode(a); err != nil {
 		fail("node A does not start: "+err.Error(), "harness-start")
 		return
 	}
